@@ -31,7 +31,8 @@ class C28(Spec):
                   "found by this check, repaired in /repo (28243c8) and is kept as a regression witness over the old rule "
                   "and as corpus replay (now ErrSign). Tie: generated submission histories (duplicates in one block / later "
                   "block / after reorganisation, TxHeight inside and outside small windows, expired, low-fee, wrong chain id, "
-                  "unpayable, mis-signed with and without the hash in the pool) offered as peer blocks and to the node's own "
+                  "unpayable, mis-signed with and without the hash in the pool; well-formed transaction GROUPS of 2..20 members "
+                  "paying the per-member fee sum, one unit less, the summed-size figure, in between) offered as peer blocks and to the node's own "
                   "block production (ExecBlock with errReturn=false on the tip), with none / some / ALL of a block's "
                   "transactions in the receiving node's mempool, and across node RESTARTS on the same data directory "
                   "(InitCache rebuild of the TxHeight window cache; quick: one history with 140 blocks between packing and "
@@ -48,7 +49,7 @@ class C28(Spec):
         "mempool block events (EventAddBlock/EventDelBlock) take effect before the next block is executed",
         "restart: index and best-chain view are rebuilt from the whole main chain (chains shorter than InitBlockNum=10240); "
         "deep forks after a restart are not tied",
-        "no transaction groups / para-chain transactions; ForkCheckTxDup, ForkTxHeight, ForkTxChainIDStrict active (local test chain)",
+        "transaction groups: coins transfers of one signer, fee verdict = per-member sum recomputed by the harness; no para-chain transactions; ForkCheckTxDup, ForkTxHeight, ForkTxChainIDStrict active (local test chain)",
     )
 
     def runs(self, tier, seed):
